@@ -36,7 +36,7 @@ use itertools::Itertools;
 use std::collections::{HashMap, HashSet};
 use std::ops::Deref;
 use std::path::PathBuf;
-use std::sync::{Arc, Mutex};
+use std::sync::Arc;
 
 #[derive(Clone)]
 pub struct CodegenOptions {
@@ -1418,8 +1418,7 @@ impl CodegenContext {
         name: &str,
         function: F,
     ) {
-        self.functions
-            .insert(name.into(), Arc::new(Mutex::new(function)));
+        self.functions.insert(name.into(), Arc::new(function));
     }
 
     fn register_default_fns(&mut self) {
@@ -1430,7 +1429,7 @@ impl CodegenContext {
             }
 
             fn apply(
-                &mut self,
+                &self,
                 ctx: &Evaluator,
                 args: &[&Located<Expression>],
             ) -> EvaluationResult<Option<SymbolData>> {
